@@ -12,6 +12,7 @@ from .fam_shut import Shut
 from .fam_kern import Kern
 from .fam_race import Race
 from .fam_conc import Conc
+from .fam_gpu import Gpu
 
 PROPS = {}
 
@@ -93,7 +94,7 @@ PX_RULE = ("family fsrv: request streams fed to the real FrontendReqHandler by a
            "judged by Spec/ProxySpec.v")
 PX_TB = ["hand models Model/Proxy.v of the Backend proxy and of FrontendReqHandler::handle_request (tied by families fsrv, proxy, psess)",
          "Spec/ProxySpec.v: my transcription of the backend-request table, the acknowledgement rule and the validity of handler invocations"]
-reg(id="C06", props="Props/C06.v", proof_files=["Proofs/FeProofs.v", "Proofs/ProxyProofs.v"], families=[Fe(), Fsrv(), Proxy()],
+reg(id="C06", props="Props/C06.v", proof_files=["Proofs/FeProofs.v", "Proofs/ProxyProofs.v", "Proofs/GpuProofs.v"], families=[Fe(), Fsrv(), Proxy(), Gpu()],
     rule=FE_RULE + " || " + PX_RULE, trusted_base=FE_TB + PX_TB, assumptions=BE_ASSUME)
 reg(id="C18", props="Props/C18.v", proof_files=["Proofs/ProxyProofs.v"], families=[Psess(), Fsrv(), Proxy()],
     rule=PX_RULE, trusted_base=PX_TB, assumptions=BE_ASSUME)
@@ -187,4 +188,5 @@ reg(id="SESS-DEV", props="Props/C20.v", families=[Sess()], rule="dev")
 
 reg(id="PX-DEV", props="Props/C20.v", families=[Fsrv(), Proxy(), Psess()], rule="dev")
 
+reg(id="GPU-DEV", props="Props/C20.v", families=[Gpu()], rule="dev")
 reg(id="DMN-DEV", props="Props/C20.v", families=[Dmn()], rule="dev")
